@@ -164,9 +164,10 @@ def exemption_checks(cx, cn, used):
         cx.check('C20.Z1', len(es) >= 2 and not bad, f.path, 'stores', 'escape-digits-are-octal-digits', '; '.join(s.term[:80] for s in bad) or str(len(es)))
     f = prog.fns.get(L + 'Lexer::escape_seq')
     if f:
-        cl = [g for g in prog.find(r'zone_lex::Lexer::escape_seq::\{closure[^}]*\}$')]
-        okc = [g for g in cl if any(re.search(r'methods::to_digit\(arg2,10\)', s.term) for s in cx.calls(g, r'to_digit$'))]
-        cx.check('C20.Z1', len(okc) == 3, f.path, 'closures', 'escape-digits-are-decimal-digits', f'{len(okc)} of {len(cl)} closures')
+        # every digit of a \\DDD escape is read with radix 10 (in escape_seq's closures, or in those of a helper it was split into)
+        td = [s for g in [f] + cx.closures_of(f) for s in cx.calls(g, r'to_digit$')]
+        bad = [s for s in td if not re.search(r'methods::to_digit\(.*,10\)$', s.term)]
+        cx.check('C20.Z1', len(td) >= 1 and not bad, f.path, 'closures', 'escape-digits-are-decimal-digits', f'{len(td)} to_digit calls; ' + '; '.join(s.term[:60] for s in bad))
     # include-depth
     f = prog.fns.get(Z + 'Parser::parse')
     if f:
